@@ -56,6 +56,8 @@ type funcRun struct {
 	inputs       []string
 	lets         map[string]Value
 	lettypes     map[string]types.Type
+	entrySt      *State       // state right after the preconditions (used by cut-point loops)
+	cutDone      map[int]bool // cut-point loop headers already explored
 }
 
 func typeTag(t types.Type) Term {
